@@ -281,7 +281,11 @@ func runC12(ch *Choices, cfg *RunCfg) (o *Outcome) {
 	}
 	nforeign := ch.Range(1, 4, "nforeign")
 	for i := 0; i < nforeign; i++ {
-		switch ch.Pick([]int{35, 30, 15, 20}, "foreign.kind") {
+		switch ch.Pick([]int{35, 30, 15, 20, 15}, "foreign.kind") {
+		case 4:
+			// a message with a binary in several chunks: every task that decodes it gets the same bytes
+			sh.foreign = append(sh.foreign, foreignChunkedBlob(ch))
+			o.Probes["shared peer message with a multi-chunk binary"]++
 		case 0:
 			sh.foreign = append(sh.foreign, foreignEvolvedObject(ch))
 		case 1:
@@ -329,6 +333,10 @@ func runC12(ch *Choices, cfg *RunCfg) (o *Outcome) {
 	inputsBefore := make([]string, nin)
 	for i, v := range sh.inputs {
 		inputsBefore[i], _ = Canon(v, CanonOpts{})
+	}
+	foreignBefore := make([][]byte, len(sh.foreign))
+	for i, b := range sh.foreign {
+		foreignBefore[i] = append([]byte(nil), b...)
 	}
 	mapsBefore := mapsDigest(sh.tm, sh.nm)
 
@@ -443,7 +451,7 @@ func runC12(ch *Choices, cfg *RunCfg) (o *Outcome) {
 	// ---- solo phase (afterwards): the expected result of every op, on fresh instances, run alone ----
 	// (over pristine copies of the maps as they were before the concurrent phase)
 	resetClock(0)
-	soloShared := &c12Shared{inputs: sh.inputs, foreign: sh.foreign}
+	soloShared := &c12Shared{inputs: sh.inputs, foreign: foreignBefore} // the messages as they were handed in
 	soloShared.tm, soloShared.nm = tmStart, nmStart
 	if oddMap {
 		for k, t := range sh.tm0 {
@@ -493,6 +501,11 @@ func runC12(ch *Choices, cfg *RunCfg) (o *Outcome) {
 		c, _ := Canon(v, CanonOpts{})
 		if c != inputsBefore[i] {
 			o.fail("c12/shared-mutated", "input", "shared input #%d changed during the concurrent phase: %s", i, firstDiff(inputsBefore[i], c))
+		}
+	}
+	for i, b := range sh.foreign {
+		if !bytes.Equal(b, foreignBefore[i]) {
+			o.fail("c12/shared-mutated", "message", "the bytes of shared message #%d (%d bytes, decoded by several tasks) were modified during the concurrent phase", i, len(b))
 		}
 	}
 	if d := mapsDigest(sh.tm, sh.nm); d != mapsBefore {
